@@ -98,6 +98,7 @@ type Lemma struct {
 	Pkg       string
 	Trigger   [][]SExpr // when used as a quantified axiom
 	Expect    string    // "" or "fail" (canary: must be refuted)
+	Fuel      int       // unfolding depth of recursive spec functions (0: default)
 }
 
 type GhostVar struct {
@@ -137,6 +138,7 @@ type FuncContract struct {
 	Line     int
 	Cover    bool
 	MayPanic bool // trusted callee that may panic under stated condition only
+	Fuel     int  // unfolding depth of recursive spec functions (0: default)
 }
 
 type LoopContract struct {
@@ -536,7 +538,7 @@ func (p *specParser) primary() SExpr {
 var clauseKeywords = map[string]bool{
 	"requires": true, "ensures": true, "modifies": true, "decreases": true, "reveal": true, "opaque": true,
 	"uses": true, "prop": true, "trusted": true, "invariant": true, "panics_when": true, "inline": true,
-	"induction": true, "trigger": true, "expect": true, "cover": true, "nopanic": true, "uses_post": true, "panic_requires": true,
+	"induction": true, "trigger": true, "expect": true, "fuel": true, "cover": true, "nopanic": true, "uses_post": true, "panic_requires": true,
 }
 var declKeywords = map[string]bool{"spec": true, "lemma": true, "ghost": true, "func": true, "loop": true, "pred": true, "effects": true, "package-effects": true}
 
@@ -731,6 +733,18 @@ func parseSpecText(pkg string, lines []string) (sf *SpecFile, err error) {
 				panic(fmt.Errorf("spec: invariant outside loop"))
 			}
 			curLoop.Invariants = append(curLoop.Invariants, Clause{E: mustExpr(it.text), Text: it.text})
+		case "fuel":
+			// unfolding depth of recursive spec functions for this unit's obligations (default 2)
+			n := 0
+			fmt.Sscanf(strings.TrimSpace(it.text), "%d", &n)
+			if n < 1 || n > 8 {
+				panic(fmt.Errorf("spec: fuel must be 1..8"))
+			}
+			if curL != nil {
+				curL.Fuel = n
+			} else if curF != nil {
+				curF.Fuel = n
+			}
 		case "decreases":
 			e := mustExpr(it.text)
 			if curLoop != nil {
